@@ -157,3 +157,49 @@ Proof. exact widths_mainnet. Qed.
 Print Assumptions C06_slack_widths.
 Example C06_slack_widths_ex : head_size 18446744073709551615 + head_size 4294967295 <= head_size 65536 + 9.
 Proof. vm_compute. discriminate. Qed.
+
+(* ------------------------------------------------------------------------------------------- *)
+(* NO ORACLE PREMISE on the sub-class of builder states covered by MinAda/TxSize.v (C07, over C13's encoder lemmas) and
+   Witnesses/* (C18): key and Byron inputs, plain / asset / datum / script-ref outputs; no explicit required signers
+   (also a body field), certificates, withdrawals, mint, scripts, reference inputs, collateral, ttl, auxiliary data.
+   [FeeConcrete.cenv I a b max_tx] is the size environment made concrete (K from C18's model of count_needed_vkeys /
+   get_bootstraps on the builder's history and TxSize's size algebra; the fee is C15's linear fee of that size);
+   the fee oracle is [with_fee (cenv ..) base] with ARBITRARY min-ADA / size-test / selection answers [base].
+   [signed_by_required d I st F x]: x is a concrete transaction (values of the C01 schemas) with the inputs and outputs of
+   st, fee F, one vkey witness per key of C18's required_keys_spec, one bootstrap witness per required Byron address.
+   [WP.all_consistent]: C18's premise (no outpoint added twice with different owners; true for every state whose inputs
+   are a map, pinned by the Example). *)
+From CSL Require FeeSuff.FeeConcrete MinAda.TxSize MinAda.SchemaTie Witnesses.WitnessProofs.
+
+(* the size the fee is computed from = the length of the encoded transaction signed by exactly the required keys *)
+Theorem C06_concrete_size :
+  forall (d : nat) (I : FeeConcrete.interp) a b mx (st : state) (F : N) (x : MinAda.TxSize.ctx),
+    FeeConcrete.signed_by_required d I st F x ->
+    Witnesses.WitnessProofs.all_consistent (FeeConcrete.ops_of I st) = true ->
+    tx_size (FeeConcrete.cenv I a b mx) st F = MinAda.SchemaTie.len (MinAda.TxSize.enc_tx d x).
+Proof. exact FeeConcrete.concrete_size_is_encoding. Qed.
+Print Assumptions C06_concrete_size.
+
+Theorem C06_sufficient_concrete :
+  forall (d : nat) (O : Type) (base : @oracle O) (I : FeeConcrete.interp) a b mx fuel addr extra r st st' (o o' : O),
+    add_change (with_fee (FeeConcrete.cenv I a b mx) base) fuel addr extra st o = mkOut (Ok r) st' o' ->
+    (forall y, s_fee_request st <> FeeExactly y) ->
+    Witnesses.WitnessProofs.all_consistent (FeeConcrete.ops_of I st') = true ->
+    exists F, s_fee st' = Some F /\
+      forall x, FeeConcrete.signed_by_required d I st' F x ->
+                a * MinAda.SchemaTie.len (MinAda.TxSize.enc_tx d x) + b <= F.
+Proof. intros d O. exact (@FeeConcrete.add_change_concrete d O). Qed.
+Print Assumptions C06_sufficient_concrete.
+
+Theorem C06_validate_concrete :
+  forall (d : nat) (O : Type) (base : @oracle O) (I : FeeConcrete.interp) a b mx body st st' (o o' : O),
+    build_tx (with_fee (FeeConcrete.cenv I a b mx) base) st o = mkOut (Ok body) st' o' ->
+    Witnesses.WitnessProofs.all_consistent (FeeConcrete.ops_of I st) = true ->
+    forall x, FeeConcrete.signed_by_required d I st (b_fee body) x ->
+              a * MinAda.SchemaTie.len (MinAda.TxSize.enc_tx d x) + b <= b_fee body.
+Proof. intros d O. exact (@FeeConcrete.build_tx_concrete d O). Qed.
+Print Assumptions C06_validate_concrete.
+
+(* non-vacuity: 5 ADA on a key input, change to an enterprise address, mainnet parameters: fee 164225, change 4835775,
+   the encoded signed transaction has 197 bytes (the implementation's figures, corpus case w5) *)
+Check FeeConcrete.concrete_premises.
